@@ -158,5 +158,83 @@ def run(P, tier="quick"):
                                (other.refname, name, name, other.refname,
                                 ", ".join(m.text() for (_, _, m) in mv) or "no move at all"), ln))
     R.counts["degree"] = str(d)
+    abs_tol(P, R)
     R.check_floor()
     return R
+
+
+KERNELS = ("vnacommon_lu.c", "vnacommon_qrd.c", "vnacommon_qr.c", "vnacommon_qrsolve.c", "vnacommon_qrsolve2.c",
+           "vnacommon_mldivide.c", "vnacommon_mrdivide.c", "vnacommon_minverse.c")
+
+
+def abs_tol(P, R):
+    """ABS-TOL: the linear-algebra kernels decide nothing by comparing matrix data with a non-zero constant.
+
+    "Singular systems are detected ... regardless of the scale of the data" (C19): a test such as
+    `norm2 < DBL_EPSILON` makes the factorisation take a different branch when the same system is given in other
+    units.  Data = anything computed (through locals, compound assignments, local arrays) from the elements of a
+    double / double complex pointer parameter.  A comparison of data with 0, with other data, or of a ratio
+    data/data with a constant is accepted."""
+    nex = 0
+    for file in KERNELS:
+        for f in P.by_file.get(file, []):
+            if f.body is None:
+                continue
+            data_params = {p["decl"] for p in f.params if "double" in p.get("ct", p["t"]) and "*" in p.get("ct", p["t"])}
+            if not data_params:
+                continue
+            tainted = set(data_params)
+            changed = True
+
+            def is_data(e):
+                for m in e.walk():
+                    if m.k == "DeclRefExpr" and m.refdecl in tainted:
+                        return True
+                return False
+            while changed:
+                changed = False
+                for n in f.walk():
+                    tgt = rhs = None
+                    if n.k == "VarDecl" and n.kids:
+                        tgt, rhs = n.get("decl"), n.kids[0]
+                    elif n.k in ("BinaryOperator", "CompoundAssignOperator") and n.op and n.op.endswith("=") and \
+                            n.op not in ("==", "!=", "<=", ">="):
+                        l = n.kids[0].strip()
+                        while l.k in ("ArraySubscriptExpr", "MemberExpr", "UnaryOperator") and l.kids:
+                            l = l.kids[0].strip()
+                        if l.k == "DeclRefExpr":
+                            tgt, rhs = l.refdecl, n.kids[1]
+                    if tgt is not None and tgt not in tainted and is_data(rhs):
+                        tainted.add(tgt)
+                        changed = True
+            per = 0
+            for n in f.walk():
+                if n.k != "BinaryOperator" or n.op not in ("<", ">", "<=", ">=", "==", "!="):
+                    continue
+                a, b = n.kids[0].strip(), n.kids[1].strip()
+                for x, y in ((a, b), (b, a)):
+                    if not is_data(x) or (x.ctype or "") in ("int", "_Bool", "bool"):
+                        continue
+                    if "double" not in (x.ctype or "") and "float" not in (x.ctype or ""):
+                        continue
+                    nex += 1
+                    per += 1
+                    key = "R34b|%s|%s|abs-tol#%d" % (file, f.name, per)
+                    const = None
+                    ys = y
+                    if ys.k in ("FloatingLiteral", "IntegerLiteral"):
+                        const = ys.val
+                    elif ys.k == "UnaryOperator" and ys.op == "-" and ys.kids[0].strip().k in ("FloatingLiteral", "IntegerLiteral"):
+                        const = -ys.kids[0].strip().val
+                    ratio = x.k == "BinaryOperator" and x.op == "/" and is_data(x.kids[0]) and is_data(x.kids[1])
+                    if const is None or const == 0 or ratio:
+                        R.ok(key, PROPS)
+                    else:
+                        R.violated(Finding("R34b", PROPS, file, f.name, "abs-tol#%d" % per,
+                                           "`%s` compares a quantity computed from the matrix data with the absolute constant %s%s: "
+                                           "the factorisation takes a different branch when the same system is given at another scale" %
+                                           (n.text(), const, " (%s)" % "/".join(ys.macros) if ys.macros else ""), n.line))
+                    break
+    R.counts["kernel_data_comparisons"] = nex
+    if nex < 3:
+        raise AnalysisBroken("R34b ABS-TOL: only %d data comparisons found in the kernels (4 confirmed by hand)" % nex)
